@@ -1981,10 +1981,10 @@ _MAP_READ = ("::get", "::contains_key", "::get_mut", "::entry", "::get_or_insert
 _MAP_WRITE = ("::insert", "::entry", "::or_insert", "::or_insert_with", "::get_or_insert_with")
 
 
-def _x5_state_name(x):
+def _x5_state_name(x, crate="savefile"):
     for y in walk(x):
         i = y.get("id")
-        if isinstance(i, str) and i.startswith("savefile::") and y.get("k") in ("Static", "Const", "ConstBlock", "Path", "ZstLit", "Item"):
+        if isinstance(i, str) and i.startswith(crate + "::") and y.get("k") in ("Static", "Const", "ConstBlock", "Path", "ZstLit", "Item"):
             return i.split("::{")[0]
     return None
 
@@ -2013,15 +2013,13 @@ def _x5_deps(e, f, params, seen=None):
     return out
 
 
-@rule("X5", ["C18", "C13", "C01", "C03"], floor=0, doc="saving and loading are functions of their arguments: a library function that touches process-wide or "
-      "thread-wide state (static, thread_local) either is on the reviewed list, or uses it as a memo whose key contains every parameter "
-      "the memoised value depends on, or as a counter that is restored on every exit (including `?`); anything else makes the outcome of a "
-      "save / load depend on what the thread did before")
-def x5(facts, tier):
+def _x5_scan(facts, crate, only=None):
     P = ["C18", "C13", "C01", "C03"]
     from ..flow import parent_map
     n_state = 0
-    for f in sorted(facts.fns_of_crate("savefile"), key=lambda g: g["id"]):
+    for f in sorted(facts.fns_of_crate(crate), key=lambda g: g["id"]):
+        if only is not None and only not in f["id"]:
+            continue
         body = f.get("body")
         if not body or "::{inlineconst" in f["id"] or "::{constant" in f["id"] or f.get("kind") == "Closure":
             continue
@@ -2038,9 +2036,9 @@ def x5(facts, tier):
         for g in parts:
             for x in walk(g["body"]):
                 if x.get("k") == "Call" and "thread::local::LocalKey" in (callee(x) or "") and not (callee(x) or "").endswith("::new"):
-                    nm = _x5_state_name(x["args"][0]) if x.get("args") else None
+                    nm = _x5_state_name(x["args"][0], crate) if x.get("args") else None
                     states.setdefault(nm or "thread-local", []).append((g, x))
-                if x.get("k") == "Static" and str(x.get("id", "")).startswith("savefile::") and "__RUST_STD_INTERNAL" not in x["id"]:
+                if x.get("k") == "Static" and str(x.get("id", "")).startswith(crate + "::") and "__RUST_STD_INTERNAL" not in x["id"]:
                     states.setdefault(x["id"], []).append((g, x))
         for nm, uses in sorted(states.items(), key=lambda kv: str(kv[0])):
             if nm in X5_ALLOWED_STATE:
@@ -2125,4 +2123,28 @@ def x5(facts, tier):
                     yield ob(P, "X5", key, "pass", where(f, uses[0][1]), f"counter {nm} is restored on every exit")
                 continue
             yield ob(P, "X5", key, "undecided", where(f, uses[0][1]), f"{f['id']} uses shared state {nm} in a way that is neither a memo nor a counter")
-    yield ob(P, "X5", "inventory", "pass", "", f"{n_state} use(s) of crate-owned shared state outside the reviewed list", nontrivial=False)
+    if only is None:
+        yield ob(P, "X5", "inventory", "pass", "", f"{n_state} use(s) of crate-owned shared state outside the reviewed list", nontrivial=False)
+
+
+@rule("X5", ["C18", "C13", "C01", "C03"], floor=5, doc="saving and loading are functions of their arguments: a library function that touches process-wide or "
+      "thread-wide state (static, thread_local) either is on the reviewed list, or uses it as a memo whose key contains every parameter "
+      "the memoised value depends on, or as a counter that is restored on every exit (including `?`); anything else makes the outcome of a "
+      "save / load depend on what the thread did before")
+def x5(facts, tier):
+    P = ["C18", "C13", "C01", "C03"]
+    yield from _x5_scan(facts, "savefile")
+    # positive examples (the expected count on the library is zero): two deliberately flawed functions of the witness corpus must be
+    # recognised on every run, a correct memo and a guarded counter must pass
+    import re as _re
+    got = {}
+    for o in _x5_scan(facts, "sfcorpus", only="selftest_state"):
+        m_ = _re.search(r"selftest_state::(\w+):", o["key"])
+        if m_:
+            got[m_.group(1)] = o
+    for name, want in (("memo_underkeyed", "violation"), ("counter_leaks", "violation"), ("memo_fully_keyed", "pass"), ("counter_guarded", "pass")):
+        o = got.get(name)
+        ok = o is not None and o["status"] == want
+        yield ob(P, "X5", f"selftest:{name}", "pass" if ok else "violation", o["where"] if o else "",
+                 f"positive example {name} is classified `{want}`" if ok else
+                 f"rule X5 no longer classifies its built-in example sfcorpus::selftest_state::{name} as `{want}` (got {o['status'] if o else 'nothing'}): the rule is blind")
